@@ -164,6 +164,42 @@ func accessFrame(frame string) (kind string, idIsString bool, id string) {
 	return "", false, ""
 }
 
+// canonicalAccessReply: the frame is {"accessMethods":[{"id":"..."}]} in the
+// compact EEBUS form (exactly one single-member object, no blanks between
+// tokens, no trailing bytes) - what every SHIP implementation sends.
+func canonicalAccessReply(frame string) bool {
+	if len(frame) < 2 || frame[0] != 1 {
+		return false
+	}
+	body := frame[1:]
+	n, err := jsonrt.Parse([]byte(body))
+	if err != nil || n.K != jsonrt.KObj || len(n.Keys) != 1 || n.Keys[0] != "accessMethods" {
+		return false
+	}
+	v := n.Vals[0]
+	if v.K != jsonrt.KArr || len(v.Vals) != 1 {
+		return false
+	}
+	m := v.Vals[0]
+	if m.K != jsonrt.KObj || len(m.Keys) != 1 || m.Keys[0] != "id" || m.Vals[0].K != jsonrt.KStr {
+		return false
+	}
+	// no blanks outside of string literals
+	in := false
+	for i := 0; i < len(body); i++ {
+		c := body[i]
+		switch {
+		case in && c == '\\':
+			i++
+		case c == '"':
+			in = !in
+		case !in && (c == ' ' || c == '\t' || c == '\n' || c == '\r' || c == 0):
+			return false
+		}
+	}
+	return true
+}
+
 func monitorC09(tr *Trace) (key, msg string) {
 	f := facts(tr)
 	for s := 0; s < 2; s++ {
@@ -216,7 +252,7 @@ func monitorC09(tr *Trace) (key, msg string) {
 		// match. The completion clause is only asserted for the compact spelling
 		// every SHIP implementation sends; a reply with blanks between tokens
 		// (from the hostile traffic) may be refused, which is on the safe side.
-		canonical := strings.HasPrefix(tr.Log[decided].Data[1:], `{"accessMethods":[`) && !strings.ContainsAny(tr.Log[decided].Data, "\x00")
+		canonical := canonicalAccessReply(tr.Log[decided].Data)
 		if !canonical && !f.completed(tr, s) && len(f.Setups[s]) == 0 {
 			continue
 		}
